@@ -16,7 +16,9 @@ import tomllib
 
 VERIF = os.path.dirname(os.path.dirname(os.path.abspath(__file__)))
 REPO = os.environ.get("VERIF_REPO", "/repo")
-WORK = os.path.join(VERIF, ".work")
+# VERIF_WORK: a private scratch directory (shadow workspace, target dir, fact cache, lock) for a regression stream that
+# runs beside others; the registered commands use the default
+WORK = os.environ.get("VERIF_WORK") or os.path.join(VERIF, ".work")
 DRIVER_DIR = os.path.join(VERIF, "mirfacts")
 DRIVER = os.path.join(DRIVER_DIR, "target", "release", "mirfacts")
 
